@@ -37,6 +37,25 @@ def model(variant: int, field_type: str = None) -> str:
             "MainProto: !protocol\n  sequence:\n    m: Main\n    s: !stream\n      items: Main\n" % (ft, variant, variant))
 
 
+_TAIL = ("Main: !record\n  fields:\n    v: int\n    lib: Lib.LibRec?\n    outer: Outer\n    ids: Id*\n"
+         "MainProto: !protocol\n  sequence:\n    m: Main\n    s: !stream\n      items: Outer\n")
+# successive contents of main/model.yml in which the *same names* mean something else each time (a record gains / loses its default value, an enum
+# loses its zero value, an alias changes its target, a generic record changes its body): whatever a long-running process remembers about a
+# definition by its name is wrong after the next save
+MEANINGS = [
+    "Mode: !enum\n  values: [off, on]\nId: int\nInner: !record\n  fields:\n    a: int\n'Box<T>': !record\n  fields:\n    content: T\n"
+    "Outer: !record\n  fields:\n    inner: Inner\n    items: Inner*\n    boxed: Box<Inner>\n    mode: Mode\n" + _TAIL,
+    "Mode: !enum\n  values:\n    slow: 1\n    fast: 2\nId: int\nInner: !record\n  fields:\n    mode: Mode\n'Box<T>': !record\n  fields:\n    content: T\n"
+    "Outer: !record\n  fields:\n    inner: Inner\n    items: Inner*\n    boxed: Box<Inner>\n    mode: Mode\n" + _TAIL,
+    "Mode: !enum\n  values: [off, on]\nId: string\nInner: !record\n  fields:\n    a: string\n    m: Mode\n'Box<T>': !record\n  fields:\n    content: T*\n    id: Id\n"
+    "Outer: !record\n  fields:\n    inner: Inner\n    items: Inner*\n    boxed: Box<Inner>\n    mode: Mode\n" + _TAIL,
+    "Mode: !flags\n  values: [r, w]\nId: Inner\nInner: !record\n  fields:\n    a: 'float[]'\n    u: [int, string]\n'Box<T>': !record\n  fields:\n    content: T?\n"
+    "Outer: !record\n  fields:\n    inner: Inner?\n    items: Inner*3\n    boxed: Box<Id>\n    mode: Mode\n" + _TAIL,
+    "Mode: !enum\n  base: uint8\n  values:\n    only: 7\nId: Mode\nInner: !record\n  fields:\n    id: Id\n'Box<T>': !record\n  fields:\n    content: T\n    second: T\n"
+    "Outer: !record\n  fields:\n    inner: Inner\n    items: string->Inner\n    boxed: Box<Mode>\n    mode: Mode\n" + _TAIL,
+]
+
+
 def manifest(outputs=("cpp", "python", "json", "matlab")):
     s = "namespace: Main\nimports:\n  - ../lib\n"
     if "cpp" in outputs:
@@ -148,9 +167,9 @@ def schedules(quick):
         steps = []
         k = r.randint(2, 6)
         for j in range(k):
-            kind = r.choices(["model", "invalid", "lib", "manifest-drop", "manifest-restore", "add-file", "delete-file"], [6, 2, 1, 1, 1, 1, 1])[0]
+            kind = r.choices(["model", "invalid", "lib", "manifest-drop", "manifest-restore", "add-file", "delete-file", "meaning"], [6, 2, 1, 1, 1, 1, 1, 2])[0]
             steps.append((r.choice(gaps), kind, 10 * i + j + 1, r.choice(["inplace", "rename"])))
-        last_model_save = [st[1] for st in steps if st[1] in ("model", "invalid")]
+        last_model_save = [st[1] for st in steps if st[1] in ("model", "invalid", "meaning")]
         if last_model_save and last_model_save[-1] == "invalid":      # the final contents must be valid: what an invalid final state should produce is not stated
             steps.append((r.choice(gaps), "model", 10 * i + 9, "inplace"))
         # a script must change something: deleting a file that was never added is not a save
@@ -174,6 +193,11 @@ def schedules(quick):
         ("lib-bad-import-then-fixed", "", [(0, "model", 1, "inplace"), (200, "lib-bad-import", 2, "inplace"), (300, "model", 3, "inplace"), (300, "lib-good-import", 4, "inplace"), (300, "model", 5, "inplace")]),
         ("lib-bad-import-then-fixed-fast", "", [(0, "lib-bad-import", 1, "inplace"), (50, "lib-good-import", 2, "inplace"), (50, "model", 3, "rename")]),
         ("forced-validated2-lib-edit", "regen.validated#2=1200", [(0, "lib", 1, "inplace"), (150, "model", 2, "inplace")]),
+        # "meaning-": the same definition names with a different meaning after every save (no particular timing needed)
+        ("meaning-cycle", "", [(0, "meaning", 0, "inplace"), (400, "meaning", 1, "inplace"), (400, "meaning", 2, "inplace"), (400, "meaning", 3, "inplace"), (400, "meaning", 4, "inplace")]),
+        ("meaning-cycle-back", "", [(0, "meaning", 4, "rename"), (400, "meaning", 3, "rename"), (400, "meaning", 1, "rename"), (400, "meaning", 0, "rename")]),
+        ("meaning-default-lost-and-back", "", [(0, "meaning", 0, "inplace"), (400, "meaning", 1, "inplace"), (400, "meaning", 0, "inplace"), (400, "meaning", 1, "inplace")]),
+        ("meaning-through-invalid", "", [(0, "meaning", 2, "inplace"), (300, "invalid", 2, "inplace"), (300, "meaning", 4, "inplace")]),
         ("file-added-then-deleted", "", [(0, "add-file", 1, "inplace"), (400, "delete-file", 2, "inplace")]),
         ("file-added-then-moved-out", "", [(0, "add-file", 1, "rename"), (400, "model", 2, "inplace"), (400, "move-file-out", 3, "inplace")]),
         ("file-added-edited-deleted-fast", "", [(0, "add-file", 1, "inplace"), (30, "add-file", 2, "inplace"), (30, "delete-file", 3, "inplace")]),
@@ -253,6 +277,7 @@ def run(ctx):
                 raise Inconclusive("%s: initial regeneration did not finish within 30 s wall" % name)
             cur_outputs = ("cpp", "python", "json", "matlab")
             final_variant, lib_text, second = 0, LIB, None
+            final_model_text = None
             sub = "SubFile0: !record\n  fields:\n    z: int\n" if name.startswith("subdir-") else None
             libsub = "LibSub0: !record\n  fields:\n    z: int\n" if name.startswith("subdir-") else None
             starts_before = w.counts()[0]
@@ -262,6 +287,11 @@ def run(ctx):
                 if kind == "model":
                     save(os.path.join(root, "main/model.yml"), model(v), how)
                     final_variant = v
+                    final_model_text = None
+                    final_invalid = False
+                elif kind == "meaning":
+                    final_model_text = MEANINGS[v % len(MEANINGS)]
+                    save(os.path.join(root, "main/model.yml"), final_model_text, how)
                     final_invalid = False
                 elif kind == "invalid":
                     save(os.path.join(root, "main/model.yml"), model(v).replace("v: ", "v: Missing"), how)
@@ -330,6 +360,8 @@ def run(ctx):
             ref = os.path.join(root, "ref")
             shutil.rmtree(ref, ignore_errors=True)
             write_tree(ref, final_variant, cur_outputs, lib_text, single_import=single)
+            if final_model_text is not None:
+                common.write_tree(ref, {"main/model.yml": final_model_text})
             if second is not None:
                 common.write_tree(ref, {"main/second.yml": second})
             if sub is not None:
